@@ -55,9 +55,18 @@ TraceNext == TNew \/ TAdd \/ TRemove \/ TNotify \/ TSelect \/ TSweep \/ TClear
 TraceSpec == TraceInit /\ [][TraceNext]_tvars
 
 \* observation mode
+\* The account nonce of a sender is determined by the calls (the last NotifyAccountNonce the sender's list received), so in
+\* observation mode it is NOT read from the code's own field: `an` is the nonce last notified to a sender that had a list,
+\* kept while that list lives.  A list the code reports as "nonce unknown" (-1) is taken as a fresh list object.
+ObsAn(s, o) ==
+    IF Ev.a = "Notify" /\ Ev.in.s = s /\ s \in DOMAIN lists THEN Ev.in.n
+    ELSE IF o.an = -1 THEN -1
+    ELSE IF s \in DOMAIN lists /\ lists[s].an # -1 THEN lists[s].an
+    ELSE o.an
+ObsListsGhost(st) == LET o == ObsLists(st) IN [s \in DOMAIN o |-> [o[s] EXCEPT !.an = ObsAn(s, o[s])]]
 ObsNext ==
     /\ l <= Len(TLog) /\ l' = l + 1
-    /\ lists' = ObsLists(Ev.st) /\ byHash' = ToSet(Ev.st.bh)
+    /\ lists' = ObsListsGhost(Ev.st) /\ byHash' = ToSet(Ev.st.bh)
     /\ cnt' = Ev.st.cnt /\ nbytes' = Ev.st.nb /\ nsend' = Ev.st.ns /\ sweepL' = Ev.st.swl
     /\ hist' = <<Rec(Ev.a, Ev.in, Ev.out)>>
     /\ IF Ev.a = "New" THEN cfg' = Ev.in /\ alive' = Ev.out.ok ELSE UNCHANGED <<cfg, alive>>
